@@ -45,9 +45,10 @@ type Map struct {
 	Dup     []string // duplicate keys seen in a literal (compiler rejects constants, kept for safety)
 }
 type Slice struct {
-	Elems []Value
-	Elem  types.Type
-	Pos   token.Pos
+	Elems   []Value
+	Elem    types.Type
+	Pos     token.Pos
+	IsArray bool // Go array (value semantics)
 }
 type Ptr struct{ Elem Value }
 
@@ -213,9 +214,39 @@ func (e *Env) lookup(o types.Object) *Value {
 	return nil
 }
 
+// Tuple is a multi-value call result.
+type Tuple []Value
+
+// DeepCopy copies structs, arrays (slices of a value-typed array) and maps' spines are NOT copied.
+func DeepCopy(v Value) Value {
+	switch x := v.(type) {
+	case *Struct:
+		n := &Struct{Type: x.Type, T: x.T, Fields: map[string]Value{}, Pos: x.Pos}
+		for k, f := range x.Fields {
+			n.Fields[k] = DeepCopy(f)
+		}
+		return n
+	case *Slice:
+		n := &Slice{Elem: x.Elem, Pos: x.Pos, IsArray: x.IsArray}
+		for _, e := range x.Elems {
+			if x.IsArray {
+				n.Elems = append(n.Elems, DeepCopy(e))
+			} else {
+				n.Elems = append(n.Elems, e)
+			}
+		}
+		if !x.IsArray {
+			return x // slices share their backing
+		}
+		return n
+	}
+	return v
+}
+
 type Evaluator struct {
 	Pkg   *packages.Package
 	Info  *types.Info
+	depth int
 	Steps int
 	Diag  []string // constructs outside the subset
 	// package-level variables that are assigned after initialisation (not foldable)
@@ -598,7 +629,7 @@ func (ev *Evaluator) zero(t types.Type) Value {
 	case *types.Struct:
 		return &Struct{Type: typeName(t), T: t, Fields: map[string]Value{}}
 	case *types.Array:
-		s := &Slice{Elem: u.Elem()}
+		s := &Slice{Elem: u.Elem(), IsArray: true}
 		for i := int64(0); i < u.Len(); i++ {
 			s.Elems = append(s.Elems, ev.zero(u.Elem()))
 		}
@@ -638,6 +669,33 @@ func (ev *Evaluator) evalCall(x *ast.CallExpr, env *Env) Value {
 				case *types.Map:
 					return &Map{Pos: x.Pos()}
 				}
+			case "append":
+				base := ev.Eval(x.Args[0], env)
+				var elems []Value
+				var et types.Type
+				switch b := base.(type) {
+				case *Slice:
+					elems = append(elems, b.Elems...)
+					et = b.Elem
+				case Nil, nil:
+				default:
+					return ev.unk(x, "append to undetermined slice")
+				}
+				if st, ok := ev.Info.TypeOf(x.Args[0]).Underlying().(*types.Slice); ok {
+					et = st.Elem()
+				}
+				if x.Ellipsis.IsValid() {
+					src, ok := ev.Eval(x.Args[1], env).(*Slice)
+					if !ok {
+						return ev.unk(x, "append of undetermined slice")
+					}
+					elems = append(elems, src.Elems...)
+				} else {
+					for _, a := range x.Args[1:] {
+						elems = append(elems, ev.copyIfValueType(ev.Eval(a, env), ev.Info.TypeOf(a)))
+					}
+				}
+				return &Slice{Elems: elems, Elem: et, Pos: x.Pos()}
 			case "len":
 				switch b := ev.Eval(x.Args[0], env).(type) {
 				case *Slice:
@@ -650,6 +708,45 @@ func (ev *Evaluator) evalCall(x *ast.CallExpr, env *Env) Value {
 			}
 			return ev.unk(x, "builtin "+id.Name)
 		}
+	}
+	// call of a function or method declared in the analysed package
+	if fd, recvExpr := ev.calleeDecl(x); fd != nil {
+		bind := map[string]Value{}
+		if recvExpr != nil && fd.Recv != nil && len(fd.Recv.List) == 1 && len(fd.Recv.List[0].Names) == 1 {
+			rv := ev.Eval(recvExpr, env)
+			_, wantPtr := ev.Info.TypeOf(fd.Recv.List[0].Type).(*types.Pointer)
+			if _, isPtr := rv.(*Ptr); wantPtr && !isPtr {
+				rv = &Ptr{rv}
+			} else if p, isPtr := rv.(*Ptr); !wantPtr && isPtr {
+				rv = DeepCopy(p.Elem)
+			} else if !wantPtr {
+				rv = DeepCopy(rv)
+			}
+			bind[fd.Recv.List[0].Names[0].Name] = rv
+		}
+		i := 0
+		for _, f := range fd.Type.Params.List {
+			for _, n := range f.Names {
+				if i < len(x.Args) {
+					bind[n.Name] = ev.copyIfValueType(ev.Eval(x.Args[i], env), ev.Info.TypeOf(x.Args[i]))
+				}
+				i++
+			}
+		}
+		ev.depth++
+		if ev.depth > 16 {
+			ev.depth--
+			return ev.unk(x, "call depth")
+		}
+		res, ok := ev.Call(fd, bind)
+		ev.depth--
+		if !ok {
+			return ev.unk(x, "callee left the evaluable subset")
+		}
+		if len(res) == 1 {
+			return res[0]
+		}
+		return Tuple(res)
 	}
 	// uninterpreted library call with constant arguments (time.Date, …)
 	name := types.ExprString(x.Fun)
@@ -724,7 +821,7 @@ func (ev *Evaluator) litOfType(x *ast.CompositeLit, t types.Type, env *Env) Valu
 			et = u.(*types.Array).Elem()
 			n = u.(*types.Array).Len()
 		}
-		s := &Slice{Elem: et, Pos: x.Pos()}
+		s := &Slice{Elem: et, Pos: x.Pos(), IsArray: n >= 0}
 		idx := int64(0)
 		for _, e := range x.Elts {
 			if kv, ok := e.(*ast.KeyValueExpr); ok {
@@ -767,6 +864,53 @@ type Frame struct {
 }
 
 const maxSteps = 200000
+
+// copyIfValueType applies Go value semantics when a struct or array value is assigned or passed.
+func (ev *Evaluator) copyIfValueType(v Value, t types.Type) Value {
+	if t == nil {
+		return v
+	}
+	switch t.Underlying().(type) {
+	case *types.Struct, *types.Array:
+		return DeepCopy(v)
+	}
+	return v
+}
+
+// calleeDecl resolves a call to a function or method declared in the analysed package.
+func (ev *Evaluator) calleeDecl(x *ast.CallExpr) (*ast.FuncDecl, ast.Expr) {
+	var obj types.Object
+	var recv ast.Expr
+	switch f := x.Fun.(type) {
+	case *ast.Ident:
+		obj = ev.Info.Uses[f]
+	case *ast.SelectorExpr:
+		if sel, ok := ev.Info.Selections[f]; ok && sel.Kind() == types.MethodVal {
+			obj = sel.Obj()
+			recv = f.X
+			if len(sel.Index()) > 1 {
+				// promoted through an embedded field: evaluate the embedded value as receiver
+				return ev.promoted(f, sel)
+			}
+		}
+	}
+	fn, ok := obj.(*types.Func)
+	if !ok || fn.Pkg() != ev.Pkg.Types {
+		return nil, nil
+	}
+	for _, file := range ev.Pkg.Syntax {
+		for _, d := range file.Decls {
+			if fd, ok := d.(*ast.FuncDecl); ok && fd.Body != nil && ev.Info.Defs[fd.Name] == obj {
+				return fd, recv
+			}
+		}
+	}
+	return nil, nil
+}
+
+func (ev *Evaluator) promoted(f *ast.SelectorExpr, sel *types.Selection) (*ast.FuncDecl, ast.Expr) {
+	return nil, nil // not needed by the table accessors analysed so far
+}
 
 // Call evaluates fd with the given bindings (receiver and parameters by name).
 // Returns the values of the first return statement reached; ok=false if evaluation left the subset.
@@ -860,6 +1004,16 @@ func (ev *Evaluator) stmt(s ast.Stmt, env *Env, fr *Frame) ctl {
 				}
 			}
 		}
+		if len(x.Lhs) > 1 && len(x.Rhs) == 1 {
+			if t, ok := ev.Eval(x.Rhs[0], env).(Tuple); ok && len(t) == len(x.Lhs) {
+				for i, l := range x.Lhs {
+					if c := ev.assign(l, t[i], env, x.Tok == token.DEFINE); c != ctlNone {
+						return c
+					}
+				}
+				return ctlNone
+			}
+		}
 		if len(x.Lhs) != len(x.Rhs) {
 			return ev.abort(x, "tuple assignment")
 		}
@@ -887,6 +1041,7 @@ func (ev *Evaluator) stmt(s ast.Stmt, env *Env, fr *Frame) ctl {
 					v = Int{ci.V * vi.V}
 				}
 			}
+			v = ev.copyIfValueType(v, ev.Info.TypeOf(l))
 			if c := ev.assign(l, v, env, x.Tok == token.DEFINE); c != ctlNone {
 				return c
 			}
